@@ -391,7 +391,9 @@ func TestC16(t *testing.T) {
 		if rng.IntN(3) == 0 {
 			target = "http://verif.invalid/events?lastEventId=fromquery&last-event-id=fromquery&Last-Event-ID=fromquery&lastEventID=fromquery&last_event_id=fromquery&id=fromquery"
 		}
-		req := httptest.NewRequest(http.MethodGet, target, http.NoBody)
+		// event streams are also requested with POST or PUT (a prompt, a query in the body)
+		method := []string{http.MethodGet, http.MethodGet, http.MethodPost, http.MethodPut}[rng.IntN(4)]
+		req := httptest.NewRequest(method, target, http.NoBody)
 		if hv != nil {
 			req.Header["Last-Event-Id"] = hv
 		}
@@ -529,7 +531,7 @@ func TestC16(t *testing.T) {
 			for tg := range tags {
 				tl = append(tl, tg)
 			}
-			r.Violation(key, tl, map[string]any{"shape": shape, "header": hv, "on_session_mode": onMode, "subscribe_refuses": subRefuses, "provider_sends_first": sendsFirst, "first_flush_fails": firstFlushFails, "request_context_done": reqCtxDone, "findings": msgs}, "C16: %s (+%d more)", fs[0].Msg, len(fs)-1)
+			r.Violation(key, tl, map[string]any{"shape": shape, "header": hv, "on_session_mode": onMode, "subscribe_refuses": subRefuses, "provider_sends_first": sendsFirst, "first_flush_fails": firstFlushFails, "request_context_done": reqCtxDone, "method": method, "findings": msgs}, "C16: %s (+%d more)", fs[0].Msg, len(fs)-1)
 		}
 	}
 	// (D) Server.Publish without topics reaches the provider with [DefaultTopic]
